@@ -207,7 +207,7 @@ func main() {
 		// simulator must own. It is replaced by a deterministic LIFO pool with
 		// the same happens-before semantics (Put(x) -> the Get that returns x).
 		pools := 0
-		rewrite := map[string]string{"Pool": "verifPool", "Mutex": "verifMutex", "RWMutex": "verifRWMutex"}
+		rewrite := map[string]string{"Pool": "verifPool", "Mutex": "verifMutex", "RWMutex": "verifRWMutex", "Cond": "verifCond", "NewCond": "verifNewCond"}
 		ast.Inspect(f, func(n ast.Node) bool {
 			se, ok := n.(*ast.SelectorExpr)
 			if !ok {
@@ -888,6 +888,51 @@ func (m *verifRWMutex) Unlock() {
 	verifRaceRelease(unsafe.Pointer(&m.wsem))
 	m.writer = false
 	verifUnblock(unsafe.Pointer(m))
+}
+
+// verifCond replaces sync.Cond: waiting is a simulated wait (the task is
+// descheduled by the simulator, never parked by the Go runtime), so the lock it
+// re-acquires on wake-up is taken by the task that holds the processor.
+type verifCond struct {
+	L interface {
+		Lock()
+		Unlock()
+	}
+	ticket, released uint64
+}
+
+func verifNewCond(l interface {
+	Lock()
+	Unlock()
+}) *verifCond {
+	return &verifCond{L: l}
+}
+
+//go:norace
+func (c *verifCond) Wait() {
+	t := c.ticket
+	c.ticket++
+	c.L.Unlock()
+	for c.released <= t {
+		verifBlock(unsafe.Pointer(c))
+	}
+	c.L.Lock()
+}
+
+//go:norace
+func (c *verifCond) Signal() {
+	if c.released < c.ticket {
+		c.released++
+		verifUnblock(unsafe.Pointer(c))
+	}
+}
+
+//go:norace
+func (c *verifCond) Broadcast() {
+	if c.released < c.ticket {
+		c.released = c.ticket
+		verifUnblock(unsafe.Pointer(c))
+	}
 }
 
 type verifRLocker verifRWMutex
